@@ -42,6 +42,11 @@ class C17(PropBase):
                 c['hist'].append(('add', 0, 1, 2, 0, 3))
             yield c
 
+    def out_of_scope(self, op, impl, model):
+        # the ratio measures are stated for non-zero denominators only: what happens on a zero denominator
+        # (ZeroDivisionError today) is not part of the property
+        return op[0] == 'stat' and 'ZeroDivisionError' in (impl, model)
+
     def program(self, case):
         hist = tup(case['hist'])
         d = case['directed']
